@@ -487,3 +487,10 @@ Proof.
   - apply Htriv. intros v E1 E2. unfold C04.step_spec. now rewrite E1, E2, He.
   - apply Htriv. intros v E1 E2. unfold C04.step_spec. now rewrite E1, E2, He.
 Qed.
+
+Theorem C04_model_any_env : forall c w e cmd um, C04_hyp c w cmd = true ->
+  C04.step_spec c w (view_of_model c w e cmd um) = true.
+Proof.
+  intros c w e cmd um Hh. destruct (plain_env e) eqn:He; [now apply C04_model_proof|].
+  destruct (view_fields c w e cmd um) as (E1 & _). unfold C04.step_spec. rewrite E1, He. reflexivity.
+Qed.
